@@ -521,6 +521,16 @@ def run_sequence(rec, pool, pr, rnd, nops, tmp, fresh_rate):
             prev_prev, prev_kind, cur = prev_kind, f['kind'], nm
             continue
         f = pool['files'][cur]
+        if f['kind'] == 'rules' and rnd.random() < .2:
+            # another part of the program reads the same file for its own purpose (as `tally diag` and the validity check of `tally up` do, with the default
+            # mode): a pure read - the rule set in use stays the one that was loaded, in the mode it was loaded with
+            try:
+                from pathlib import Path as _P
+                from tally.merchant_engine import load_merchants_file as _lmf
+                _lmf(_P(f['path']))
+                rec.count('same_file_read_again_by_another_reader')
+            except Exception:
+                pass
         if op == 'reload':
             if f['kind'] == 'rules' and rnd.random() < .6:
                 # the user EDITS the rules file in place (a transform line added or removed at the top) and the same path is loaded again
@@ -784,6 +794,70 @@ def duplicate_supplemental_probe(rec, tmp):
         shutil.rmtree(root, ignore_errors=True)
 
 
+TWO_BUDGETS_CHILD = """
+import contextlib, io, json, os, sys
+sys.path.insert(0, sys.argv[1])
+from tally import cli
+outs = []
+for bud in sys.argv[2:]:
+    os.chdir(bud)
+    sys.argv = ['tally', 'up', '--format', 'json', '-q']
+    buf = io.StringIO()
+    with contextlib.redirect_stdout(buf):
+        try:
+            cli.main()
+        except SystemExit:
+            pass
+    try:
+        js = json.loads(buf.getvalue()[buf.getvalue().index('{'):])
+        outs.append(sorted((m['name'], m['category']) for m in js['merchants']))
+    except Exception as e:
+        outs.append('no report: %s' % buf.getvalue()[-200:])
+sys.__stdout__.write(json.dumps(outs))
+"""
+
+
+def two_budgets_one_process(rec, tmp):
+    """Two budgets reported one after the other by ONE process (a script that drives tally.cli.main): each is classified with its own rules, whichever kind of rule
+    file (.rules / legacy CSV) the budget before it used."""
+    import subprocess
+    root = os.path.join(tmp, 'twob')
+    shutil.rmtree(root, ignore_errors=True)
+    kinds = {'r1': ('rules', 'FromRulesOne'), 'c1': ('csv', 'FromCsvOne'), 'r2': ('rules', 'FromRulesTwo'), 'c2': ('csv', 'FromCsvTwo')}
+    for nm, (kind, cat) in kinds.items():
+        os.makedirs(os.path.join(root, nm, 'config'))
+        os.makedirs(os.path.join(root, nm, 'data'))
+        with open(os.path.join(root, nm, 'config', 'settings.yaml'), 'w') as f:
+            f.write('year: 2025\n' + ('merchants_file: config/merchants.rules\n' if kind == 'rules' else '') +
+                    'data_sources:\n  - name: Card\n    file: data/card.csv\n    format: "{date:%Y-%m-%d},{description},{amount}"\n')
+        if kind == 'rules':
+            with open(os.path.join(root, nm, 'config', 'merchants.rules'), 'w') as f:
+                f.write('[Netflix %s]\nmatch: contains("NETFLIX")\ncategory: %s\n' % (nm, cat))
+        else:
+            with open(os.path.join(root, nm, 'config', 'merchant_categories.csv'), 'w') as f:
+                f.write('Pattern,Merchant,Category,Subcategory\nNETFLIX,Netflix %s,%s,Sub\n' % (nm, cat))
+        with open(os.path.join(root, nm, 'data', 'card.csv'), 'w') as f:
+            f.write('Date,Description,Amount\n2025-01-03,NETFLIX.COM,15.99\n')
+    for order in (['r1', 'c1', 'r2', 'c2'], ['c1', 'r1', 'c2', 'c1'], ['r1', 'r2', 'c1']):
+        env = dict(os.environ, PYTHONDONTWRITEBYTECODE='1', NO_COLOR='1')
+        env.pop('TALLY_CONFIG', None)
+        p = subprocess.run([core.PY, '-c', TWO_BUDGETS_CHILD, core.SRC] + [os.path.join(root, nm) for nm in order], capture_output=True, text=True, stdin=subprocess.DEVNULL, env=env, timeout=300)
+        rec.case()
+        rec.count('budget_sequences_reported_by_one_process')
+        try:
+            outs = json.loads(p.stdout)
+        except Exception:
+            rec.unsure('two-budgets child gave no result: ' + (p.stderr or p.stdout)[-200:])
+            continue
+        want = [[['Netflix ' + nm, kinds[nm][1]]] for nm in order]
+        if outs != want:
+            k = next(i for i, (a, b) in enumerate(zip(outs, want)) if a != b)
+            rec.violation('history-dependent-classification:budget-after-budget', f'budgets {order} reported by one process (tally.cli.main, `up --format json -q` in each): budget '
+                          f'#{k} ({order[k]}, {kinds[order[k]][0]} rules) is reported as {outs[k]}, its own rules give {want[k]}', {'kind': 'two-budgets'})
+            break
+    shutil.rmtree(root, ignore_errors=True)
+
+
 def bait_pair_sweep(rec, pr, rnd):
     """Deterministic part of the history oracle: every pair of near-duplicate expressions (another letter case, another blank, another threshold) is
     evaluated back to back, in a random order of the two, on every bait description - each answer must be the pristine process's."""
@@ -826,6 +900,7 @@ def run(rec, shard, nshards, t):
         rec.count('pristine_queries', pr.queries)
         if shard == 0:
             duplicate_supplemental_probe(rec, tmp)
+            two_budgets_one_process(rec, tmp)
     finally:
         pr.close()
         shutil.rmtree(tmp, ignore_errors=True)
@@ -839,6 +914,9 @@ def replay(rec, case):
         rnd = core.rng_for('C07', 'replay')
         if case.get('kind') == 'dup-supplemental':
             duplicate_supplemental_probe(rec, tmp)
+            return
+        if case.get('kind') == 'two-budgets':
+            two_budgets_one_process(rec, tmp)
             return
         for i in range(20):
             pool = make_pool(rnd, tmp, i)
